@@ -331,15 +331,17 @@ pub fn run(tier: Tier) -> ! {
     // every Unicode scalar value (NUL excluded: not a legal sentence character) in four contexts, so that
     // every (grapheme-break class x character type) combination and every line-break-like character occurs:
     // [a c], [c a], [c c], [half-width katakana, c, a]; grapheme and line-break filters on all four, the six
-    // character-type filters on [c c]; all-W labels (quick: [a c] and [c c] only for the two scanning filters)
+    // character-type filters on [c c]; all-W labels, and all-N labels for the two scanning filters (quick: [a c] and [c c] only for the two scanning filters)
     {
         let all: Vec<char> = (1u32..=0x10FFFF).filter_map(char::from_u32).collect();
         chk.set("all_scalar_values_scanned", json!(all.len()));
         all.par_iter().for_each(|&c| {
             let ctxs: Vec<Vec<char>> = tier.pick(vec![vec!['a', c], vec![c, c]], vec![vec!['a', c], vec![c, 'a'], vec![c, c], vec!['ｶ', c, 'a']]);
             for (k, text) in ctxs.iter().enumerate() {
-                let labels = vec![1u8; text.len() - 1];
-                let ids: &[usize] = if text[0] == c && text[1] == c { &[0, 1, 2, 3, 4, 5, 6, 7] } else { &[6, 7] };
+              // all-W shows a filter that CLEARS boundaries, all-N one that SETS them (the line-break filter): both
+              for base in [1u8, 0] {
+                let labels = vec![base; text.len() - 1];
+                let ids: &[usize] = if base == 0 { &[6, 7] } else if text[0] == c && text[1] == c { &[0, 1, 2, 3, 4, 5, 6, 7] } else { &[6, 7] };
                 let _ = k;
                 for &id in ids {
                     chk.eval(1);
@@ -350,6 +352,7 @@ pub fn run(tier: Tier) -> ! {
                         chk.violation(format!("{kd} filter={id} text={:?} labels={} n_tags=0", gen::s(text), lab(&labels)), what, json!({"kind": "boundary", "filter": id, "text": gen::s(text), "labels": labels, "n_tags": 0, "pattern": 0}));
                     }
                 }
+              }
             }
         });
     }
